@@ -60,8 +60,24 @@ def main(argv):
             for p in rep.lean.problems:
                 rep.tie_broken('Lean side: ' + p)
         return rep.finish()
-    except Exception:  # infrastructure failure
+    except Exception as exc:
         traceback.print_exc()
+        # An exception that comes out of the implementation (a frame inside /repo) at a place where the harness expected none is a
+        # correspondence that no longer checks: the harnesses run clean on the pinned tree, so the library now raises where it did
+        # not.  It is reported like any other broken tie (after whatever violations were found before it).  An exception with no
+        # implementation frame is a defect of the machinery itself: exit 2.
+        frames = traceback.extract_tb(exc.__traceback__)
+        impl = [f for f in frames if os.path.realpath(f.filename).startswith(os.path.realpath(common.REPO) + os.sep)]
+        if impl and not isinstance(exc, (MemoryError, KeyboardInterrupt)):
+            last_h = [f for f in frames if f.filename.startswith(common.VERIF)][-1]
+            rep.tie_broken(f'the implementation raised {type(exc).__name__} inside the harness ({os.path.basename(last_h.filename)}:{last_h.name}) '
+                           'where it does not raise on the pinned tree',
+                           {'exception': repr(exc)[:400], 'raised_at': f'{os.path.relpath(impl[-1].filename, common.REPO)}:{impl[-1].lineno} in {impl[-1].name}',
+                            'harness_frame': f'{os.path.basename(last_h.filename)}:{last_h.lineno} in {last_h.name}'})
+            try:
+                return rep.finish()
+            except Exception:                                   # noqa: BLE001
+                traceback.print_exc()
         print(f'INFRASTRUCTURE-FAILURE property={pid}')
         return 2
 
